@@ -50,6 +50,10 @@ func (n *Node) RandomOpts(r *rand.Rand) BlockOpts {
 	if r.Intn(4) != 0 {
 		o.Directive = d
 	}
+	if r.Intn(6) == 0 {
+		// certify a block (honest aggregate of all validators of that height)
+		o.AggregateCommit = n.CertifiableAggregate(r.Intn(2) == 0)
+	}
 	if r.Intn(3) == 0 {
 		o.Extra = append(o.Extra, &blockchain.BlockAsset{Module: "aux", Data: []byte{byte(r.Intn(256))}})
 	}
